@@ -34,6 +34,15 @@
 #include "response.h"
 #include "json/cJSON.h"
 
+static int add_item_or_delete(cJSON *object, const char *key, cJSON *item)
+{
+	if (unlikely(!cJSON_AddItemToObject(object, key, item))) {
+		cJSON_Delete(item);
+		return -1;
+	}
+	return 0;
+}
+
 static cJSON *create_info(void)
 {
 	cJSON *root = cJSON_CreateObject();
@@ -45,43 +54,57 @@ static cJSON *create_info(void)
 	if (name == NULL) {
 		goto error;
 	}
-	cJSON_AddItemToObject(root, "name", name);
+	if (unlikely(add_item_or_delete(root, "name", name) < 0)) {
+		goto error;
+	}
 
 	cJSON *version = cJSON_CreateString(CJET_VERSION);
 	if (version == NULL) {
 		goto error;
 	}
-	cJSON_AddItemToObject(root, "version", version);
+	if (unlikely(add_item_or_delete(root, "version", version) < 0)) {
+		goto error;
+	}
 
 	cJSON *protocol_version = cJSON_CreateString("1.0.0");
 	if (protocol_version == NULL) {
 		goto error;
 	}
-	cJSON_AddItemToObject(root, "protocolVersion", protocol_version);
+	if (unlikely(add_item_or_delete(root, "protocolVersion", protocol_version) < 0)) {
+		goto error;
+	}
 
 	cJSON *features = cJSON_CreateObject();
 	if (unlikely(features == NULL)) {
 		goto error;
 	}
-	cJSON_AddItemToObject(root, "features", features);
+	if (unlikely(add_item_or_delete(root, "features", features) < 0)) {
+		goto error;
+	}
 
 	cJSON *batches = cJSON_CreateTrue();
 	if (unlikely(batches == NULL)) {
 		goto error;
 	}
-	cJSON_AddItemToObject(features, "batches", batches);
+	if (unlikely(add_item_or_delete(features, "batches", batches) < 0)) {
+		goto error;
+	}
 
 	cJSON *authentication = cJSON_CreateTrue();
 	if (unlikely(authentication == NULL)) {
 		goto error;
 	}
-	cJSON_AddItemToObject(features, "authentication", authentication);
+	if (unlikely(add_item_or_delete(features, "authentication", authentication) < 0)) {
+		goto error;
+	}
 
 	cJSON *fetch = cJSON_CreateString("full");
 	if (fetch == NULL) {
 		goto error;
 	}
-	cJSON_AddItemToObject(features, "fetch", fetch);
+	if (unlikely(add_item_or_delete(features, "fetch", fetch) < 0)) {
+		goto error;
+	}
 
 	return root;
 
